@@ -23,19 +23,19 @@ L = 2 ** 252 + 27742317777372353535851937790883648493
 _enc = z3.Function('enc', z3.IntSort(), z3.IntSort())
 _dlog = z3.Function('dlog', z3.IntSort(), z3.IntSort())
 _validpt = z3.Function('validpt', z3.IntSort(), z3.BoolSort())
+_decodable = z3.Function('decodable', z3.IntSort(), z3.BoolSort())
 _M = z3.Function('M', z3.IntSort(), z3.IntSort(), z3.IntSort())
 
 
 def _bytes32(x, what):
-    if not is_byteslike(x):
-        raise nacl.exceptions.TypeError(f'{what} must be bytes')
-    if len(x) != 32:
-        raise nacl.exceptions.ValueError(f'{what} must be 32 bytes long')
+    if not is_byteslike(x) or len(x) != 32:
+        raise nacl.exceptions.TypeError(f'{what} must be a 32 bytes long bytes sequence')
     return x
 
 
 def modL(t):
     """t mod L with fresh quotient/remainder (t: z3 Int term or int)"""
+    eng().run_cache['stubbed'] = True
     if isinstance(t, int):
         return t % L
     t = z3.simplify(t)
@@ -51,6 +51,16 @@ def modL(t):
     e.add(z3.And(t == q * L + r, r >= 0, r < L))
     e.run_cache[key] = (t, r)
     return r
+
+
+def _wrap256(t):
+    """t mod 2^256 for 0 <= t < 2^257 (libsodium adds scalars in 32 bytes and drops the carry)"""
+    if isinstance(t, int):
+        return t % 2 ** 256
+    e = eng()
+    c = e.fresh_int('carry')
+    e.add(z3.And(c >= 0, c <= 1, t - c * 2 ** 256 >= 0, t - c * 2 ** 256 < 2 ** 256))
+    return t - c * 2 ** 256
 
 
 def scalar_int(s):
@@ -72,34 +82,68 @@ def enc_point(k):
     e = eng()
     kt = zi(k)
     p = _enc(kt)
-    e.add(z3.And(p >= 0, p < 2 ** 256, _dlog(p) == kt, _validpt(p)))
+    # is_valid_point is false for the identity (libsodium rejects small-order points), true for k != 0
+    e.add(z3.And(p >= 0, p < 2 ** 256, _dlog(p) == kt, _decodable(p), _validpt(p) == (kt != 0)))
     return int_to_bytes_model(SymInt(p, 256), 32, 'big')
 
 
 def dlog_point(p, what='point'):
     """discrete log term of point bytes p; raises like libsodium for invalid points"""
     e = eng()
+    e.run_cache['stubbed'] = True
     pi = point_int(p)
-    if not mk_bool(_validpt(pi)):
+    e.add(z3.Implies(_validpt(pi), _decodable(pi)))
+    if not mk_bool(_decodable(pi)):
         raise nacl.exceptions.RuntimeError('Unexpected library error')
     d = _dlog(pi)
-    e.add(z3.And(d >= 0, d < L, _enc(d) == pi))
+    e.add(z3.And(d >= 0, d < L, _enc(d) == pi, _validpt(pi) == (d != 0)))
     return d
+
+
+def _opaque():
+    from .core import ABSTRACT
+    return ABSTRACT['algebra']
+
+
+def _opq(name, *args):
+    """opaque mode (invariant harnesses): the result is an uninterpreted function of the arguments"""
+    from .stubs import uf_bytes
+    eng().run_cache['abstracted'] = True
+    return uf_bytes('alg_' + name, 32, *[zi(from_bytes_model(a, 'big')) for a in args])
+
+
+def _opq_points(*pts):
+    eng().run_cache['stubbed'] = True
+    for p in pts:
+        pi = point_int(p)
+        eng().add(z3.Implies(_validpt(pi), _decodable(pi)))
+        if not mk_bool(_decodable(pi)):
+            raise nacl.exceptions.RuntimeError('Unexpected library error')
 
 
 def is_valid_point(p):
     _bytes32(p, 'point')
+    eng().run_cache['stubbed'] = True
     return mk_bool(_validpt(point_int(p)))
 
 
 def scalar_reduce(h):
     if not is_byteslike(h) or len(h) != 64:
-        raise nacl.exceptions.ValueError('Integer s must be 64 bytes long')
+        raise nacl.exceptions.TypeError('Integer s must be a 64 bytes long bytes sequence')
+    if _opaque():
+        return _opq('reduce', h)
     return scalar_bytes(modL(zi(from_bytes_model(h, 'little'))))
 
 
 def base_mult(s):
     _bytes32(s, 'scalar')
+    if _opaque():
+        eng().run_cache['abstracted'] = True
+        if bool(mk_bool(z3.Bool(eng().fresh_name('alg_zero')))):
+            raise nacl.exceptions.RuntimeError('Unexpected library error')
+        r = _opq('base', s)
+        eng().add(_validpt(point_int(r)))
+        return r
     k = modL(scalar_int(s))
     if mk_bool(zi(k) == 0):
         raise nacl.exceptions.RuntimeError('Unexpected library error')
@@ -109,6 +153,14 @@ def base_mult(s):
 def scalar_mult_point(c, p):
     _bytes32(c, 'scalar')
     _bytes32(p, 'point')
+    if _opaque():
+        _opq_points(p)
+        eng().run_cache['abstracted'] = True
+        if bool(mk_bool(z3.Bool(eng().fresh_name('alg_zero')))):
+            raise nacl.exceptions.RuntimeError('Unexpected library error')
+        r = _opq('smul', c, p)
+        eng().add(_validpt(point_int(r)))
+        return r
     d = dlog_point(p)
     m = _M(zi(modL(scalar_int(c))), d)
     eng().add(z3.And(m >= 0, m < L))
@@ -120,30 +172,43 @@ def scalar_mult_point(c, p):
 def point_add(p, q):
     _bytes32(p, 'point')
     _bytes32(q, 'point')
+    if _opaque():
+        _opq_points(p, q)
+        return _opq('padd', p, q)
     return enc_point(modL(dlog_point(p) + dlog_point(q)))
 
 
 def point_sub(p, q):
     _bytes32(p, 'point')
     _bytes32(q, 'point')
+    if _opaque():
+        _opq_points(p, q)
+        return _opq('psub', p, q)
     return enc_point(modL(dlog_point(p) - dlog_point(q)))
 
 
 def scalar_add(a, b):
     _bytes32(a, 'scalar')
     _bytes32(b, 'scalar')
-    return scalar_bytes(modL(scalar_int(a) + scalar_int(b)))
+    if _opaque():
+        return _opq('scalar_add', a, b)
+    return scalar_bytes(modL(_wrap256(scalar_int(a) + scalar_int(b))))
 
 
 def scalar_sub(a, b):
     _bytes32(a, 'scalar')
     _bytes32(b, 'scalar')
-    return scalar_bytes(modL(scalar_int(a) - scalar_int(b)))
+    if _opaque():
+        return _opq('scalar_sub', a, b)
+    # libsodium: add(a, negate(b)), the 32-byte addition wraps mod 2^256 before the reduction
+    return scalar_bytes(modL(_wrap256(scalar_int(a) + zi(modL(-scalar_int(b))))))
 
 
 def scalar_mul(a, b):
     _bytes32(a, 'scalar')
     _bytes32(b, 'scalar')
+    if _opaque():
+        return _opq('scalar_mul', a, b)
     m = _M(zi(modL(scalar_int(a))), zi(modL(scalar_int(b))))
     eng().add(z3.And(m >= 0, m < L))
     return scalar_bytes(m)
@@ -197,7 +262,7 @@ def ed25519_verify(A, m, sig):
     R, Sb = sig[:32], sig[32:]
     Ai, Ri = point_int(A), point_int(R)
     S = scalar_int(Sb)
-    pre = z3.And(_validpt(Ai), _validpt(Ri), S < L)
+    pre = z3.And(_validpt(Ai), _decodable(Ai), _decodable(Ri), S < L)
     if not mk_bool(pre):
         return False
     dA = dlog_point(A)
